@@ -50,11 +50,12 @@ Section Run.
                     match res (get i s) with None => fire_in cb i x s | Some _ => s end
                   else s
     | CancelAgg => match agg s with Some _ => s | None => cancel_all cb (seq 0 (n_of s)) s end
+    | MutateArg => s
     end.
 
   Lemma dl_step_inv s o : DInv s -> DInv (dl_step s o).
   Proof.
-    intros HI. destruct o as [i x|]; cbn [dl_step].
+    intros HI. destruct o as [i x| |]; cbn [dl_step]; [| |exact HI].
     - destruct (Nat.ltb_spec i (n_of s)); [|exact HI]. destruct (res (get i s)) eqn:Hr; [exact HI|].
       apply fire_in_inv; assumption.
     - destruct (agg s); [exact HI|]. apply cancel_all_inv; [exact HI|]. intros j Hj. apply in_seq in Hj. lia.
@@ -62,7 +63,7 @@ Section Run.
 
   Lemma n_dl_step s o : n_of (dl_step s o) = n_of s.
   Proof.
-    destruct o as [i x|]; cbn [dl_step].
+    destruct o as [i x| |]; cbn [dl_step]; [| |reflexivity].
     - destruct (Nat.ltb i (n_of s)); [|reflexivity]. destruct (res (get i s)); [reflexivity | apply n_fire_in].
     - destruct (agg s); [reflexivity | apply n_cancel_all].
   Qed.
